@@ -179,6 +179,10 @@ func confirmAndMinimise(b builds, cfg tierCfg, viol *proto.Record) *proto.Record
 		// depends on a source the simulator does not own (map iteration order, race-build
 		// sync.Pool drops, ...). Class nondeterministic_result; every candidate gets 16 tries.
 		m.tries = 16
+		if cur.Class == "data_race" {
+			// the usual reason: the detector missed it in one of the probe processes
+			m.tries = 3
+		}
 		cur.ReplayMode = "probabilistic"
 		viol = cloneRec(viol)
 		viol.ReplayMode = "probabilistic"
@@ -218,6 +222,9 @@ func confirmAndMinimise(b builds, cfg tierCfg, viol *proto.Record) *proto.Record
 		}
 	}
 	dbg := os.Getenv("VERIF_DEBUG_MIN") != ""
+	if cur.Build != "ref" && cur.Run.Scripted && (!probabilistic || cur.Class == "data_race") {
+		cur = m.cutCrowd(cur)
+	}
 	for round := 0; round < 3 && !m.exhausted(); round++ {
 		t0, o0, e0 := countOps(cur)
 		if dbg {
@@ -291,63 +298,6 @@ func confirmAndMinimise(b builds, cfg tierCfg, viol *proto.Record) *proto.Record
 	// 3b. re-search: with fewer tasks the recorded schedule usually no longer fits; look
 	// for a fresh schedule of the reduced workload (8 processes x 25 seeded schedules)
 	if cur.Build != "ref" && !probabilistic {
-		// crowds first: drop half, a quarter, ... of the tasks at once and look for a fresh
-		// schedule of what is left (a defect that needs seventeen callers is never found
-		// by removing one task at a time from sixty under the recorded schedule)
-		liveTasks := func(r *proto.Record) []int {
-			var idx []int
-			for t := range r.Run.Tasks {
-				if len(r.Run.Tasks[t].Ops) > 0 {
-					idx = append(idx, t)
-				}
-			}
-			return idx
-		}
-		if n := len(liveTasks(cur)); n > 8 {
-			m.deadline = m.deadline.Add(120 * time.Second)
-			for chunk := (n + 1) / 2; chunk >= 1 && !m.exhausted(); {
-				idx := liveTasks(cur)
-				if len(idx) <= 4 {
-					break
-				}
-				found := false
-				var cands []*proto.Record
-				for s0 := 0; s0 < len(idx); s0 += chunk {
-					e := s0 + chunk
-					if e > len(idx) {
-						e = len(idx)
-					}
-					c := cloneRec(cur)
-					for _, t := range idx[s0:e] {
-						c.Run.Tasks[t].Ops = nil
-					}
-					cands = append(cands, c)
-				}
-				// under the recorded schedule first (cheap, all candidates at once) ...
-				if i, _ := m.firstHolding(cands); i >= 0 {
-					cur = cands[i]
-					found = true
-				}
-				// ... then with a fresh schedule
-				for i := 0; i < len(cands) && !found && !m.exhausted(); i++ {
-					if f := m.search(cands[i]); f != nil {
-						cur = f
-						found = true
-					}
-				}
-				if found {
-					if l := len(liveTasks(cur)); chunk > (l+1)/2 {
-						chunk = (l + 1) / 2
-					}
-					continue
-				}
-				if chunk == 1 {
-					break
-				}
-				chunk = (chunk + 1) / 2
-			}
-			cur = m.shrinkEvents(cur)
-		}
 		for changed := true; changed && !m.exhausted(); {
 			changed = false
 			nt, _, _ := countOps(cur)
@@ -400,9 +350,22 @@ func confirmAndMinimise(b builds, cfg tierCfg, viol *proto.Record) *proto.Record
 	}
 	// 5. final confirmation of the minimised record in a fresh process
 	final, ok := m.holds(cur)
+	if !ok && !probabilistic {
+		// the determinism probe passed but the minimised file does not reproduce at once:
+		// the observation is not a function of the file alone after all (with the race
+		// detector: which of many accesses to one hot word are still in its shadow cells).
+		// Keep the minimised record if it reproduces within 16 fresh processes.
+		m.tries = 16
+		if final, ok = m.holds(cur); ok {
+			probabilistic = true
+			cur.ReplayMode = "probabilistic"
+			logf("the minimised file does not reproduce in every process: replay is probabilistic")
+		}
+	}
 	if !ok {
-		// fall back to the unminimised record (should not happen with exact replays)
+		// fall back to the unminimised record
 		cur = cloneRec(viol)
+		cur.ReplayMode = "probabilistic"
 		cur.Note += " (minimisation result did not re-confirm; unminimised record kept)"
 		if probabilistic {
 			cur.Class = "nondeterministic_result"
@@ -599,6 +562,70 @@ func (m *minimiser) search(c *proto.Record) *proto.Record {
 		}
 	}
 	return nil
+}
+
+// cutCrowd: a run with many caller tasks is cut down in chunks before anything else.
+func (m *minimiser) cutCrowd(cur *proto.Record) *proto.Record {
+	// crowds first: drop half, a quarter, ... of the tasks at once and look for a fresh
+	// schedule of what is left (a defect that needs seventeen callers is never found
+	// by removing one task at a time from sixty under the recorded schedule)
+	liveTasks := func(r *proto.Record) []int {
+		var idx []int
+		for t := range r.Run.Tasks {
+			if len(r.Run.Tasks[t].Ops) > 0 {
+				idx = append(idx, t)
+			}
+		}
+		return idx
+	}
+	searches := 0
+	if n := len(liveTasks(cur)); n > 8 {
+		m.deadline = m.deadline.Add(120 * time.Second)
+		for chunk := (n + 1) / 2; chunk >= 1 && !m.exhausted(); {
+			idx := liveTasks(cur)
+			if len(idx) <= 4 {
+				break
+			}
+			found := false
+			var cands []*proto.Record
+			for s0 := 0; s0 < len(idx); s0 += chunk {
+				e := s0 + chunk
+				if e > len(idx) {
+					e = len(idx)
+				}
+				c := cloneRec(cur)
+				for _, t := range idx[s0:e] {
+					c.Run.Tasks[t].Ops = nil
+				}
+				cands = append(cands, c)
+			}
+			// under the recorded schedule first (cheap, all candidates at once) ...
+			if i, _ := m.firstHolding(cands); i >= 0 {
+				cur = cands[i]
+				found = true
+			}
+			// ... then with a fresh schedule
+			for i := 0; i < len(cands) && !found && !m.exhausted() && searches < 48; i++ {
+				searches++
+				if f := m.search(cands[i]); f != nil {
+					cur = f
+					found = true
+				}
+			}
+			if found {
+				if l := len(liveTasks(cur)); chunk > (l+1)/2 {
+					chunk = (l + 1) / 2
+				}
+				continue
+			}
+			if chunk == 1 {
+				break
+			}
+			chunk = (chunk + 1) / 2
+		}
+		cur = m.shrinkEvents(cur)
+	}
+	return cur
 }
 
 // shrinkEvents: delta debugging over the schedule / fault event list.
